@@ -297,7 +297,19 @@ func (e *Explorer) replayFor(path []Op, next *Op) Inst {
 	in := e.Sys.New()
 	prepare(in, path, next)
 	for i, o := range path {
-		if v := safeStep(in, o, nil); v != nil && !(e.Beyond && v.Class != "panic") {
+		var v *Viol
+		if ph, ok := in.(phased); ok && e.Beyond {
+			// the operation itself must not panic; what the observers do on the state it leaves
+			// (mismatch or panic) was another property's finding when the prefix was explored
+			v = safeCheck(func() *Viol { return ph.Do(o) }, nil, o.String())
+			if v == nil || v.Class != "panic" {
+				safeCheck(ph.Content, nil, "Size/Keys/Values after "+o.String())
+				v = nil
+			}
+		} else {
+			v = safeStep(in, o, nil)
+		}
+		if v != nil && !(e.Beyond && v.Class != "panic") {
 			panic(fmt.Sprintf("tool error: divergence while replaying verified prefix at step %d (%s) of %v: %s", i, o, path, v.Msg))
 		}
 	}
@@ -393,8 +405,10 @@ func (e *Explorer) Run() *Found {
 			var v *Viol
 			var k string
 			var h [16]byte
+			doPanicked := true // a panic inside the operation itself leaves an undefined state
 			if ph, ok := in.(phased); ok {
 				v = safeCheck(func() *Viol { return ph.Do(o) }, props, o.String())
+				doPanicked = v != nil && v.Class == "panic"
 				if v != nil && !e.wants(v) && v.Class != "panic" {
 					// the operation's own oracle failed for another property: this property's
 					// observer comparison is still evaluated on the resulting state
@@ -432,7 +446,7 @@ func (e *Explorer) Run() *Found {
 				// a violation of a property this run does not decide: normally do not explore
 				// beyond a transition whose oracle failed (the reference is unreliable there)
 				e.St.Nested["transitions_with_foreign_violation"]++
-				if !e.Beyond || v.Class == "panic" {
+				if !e.Beyond || (v.Class == "panic" && doPanicked) {
 					continue
 				}
 				kv := safeCheck(func() *Viol { k = in.Key(); return nil }, props, "fingerprint")
@@ -504,7 +518,13 @@ func (e *Explorer) visitNew(path []Op, in Inst, props []string) *Found {
 	if e.OnState != nil {
 		setInflight(func() string { return fmt.Sprintf("%s path=%v nested", e.Sys.Name(), path) })
 		build := func() Inst { return e.replay(path) }
-		v := safeCheck(func() *Viol { return e.OnState(path, build, &e.St) }, props, "nested enumeration")
+		// a library panic during the nested enumeration is a violation of the property that is
+		// being enumerated (it expects every call to return), whatever the family's own tags
+		np := props
+		if e.Want != "" {
+			np = append(append([]string{}, props...), e.Want)
+		}
+		v := safeCheck(func() *Viol { return e.OnState(path, build, &e.St) }, np, "nested enumeration")
 		if v == nil && e.OutGuard {
 			v = outGuardCheck("nested enumeration")
 		}
@@ -588,7 +608,13 @@ func (e *Explorer) ReplayOne(path []Op, last *Op) *Found {
 	}
 	if e.OnState != nil {
 		build := func() Inst { return e.replay(path) }
-		v := safeCheck(func() *Viol { return e.OnState(path, build, &e.St) }, props, "nested enumeration")
+		// a library panic during the nested enumeration is a violation of the property that is
+		// being enumerated (it expects every call to return), whatever the family's own tags
+		np := props
+		if e.Want != "" {
+			np = append(append([]string{}, props...), e.Want)
+		}
+		v := safeCheck(func() *Viol { return e.OnState(path, build, &e.St) }, np, "nested enumeration")
 		if v == nil && e.OutGuard {
 			v = outGuardCheck("nested enumeration")
 		}
